@@ -968,6 +968,18 @@ def check_reuse(ctx, v):
                 ctx.count("reuse:interrupted-by-callback")
             except Exception:  # noqa  (a row-level exception of the library came first; judged below)
                 ctx.count("reuse:interrupted-by-library")
+        if k is not None and k % 2:
+            # a rejected request: rest times that are not a list (a bare number; an iterator that raises)
+            def _gives_up():
+                yield 0.0
+                yield 1.0
+                raise _CallbackFailed("rest times")
+            for bad_rests in (24, _gives_up()):
+                try:
+                    reused.calculate_activation(environment, exposure=envd["exposure"] * 3, rest_times=bad_rests,
+                                                abundance=abundance)
+                except Exception:  # noqa
+                    ctx.count("reuse:rejected-rest-times")
         try:
             with unchanged("c14", case, rest_times=L):
                 reused.calculate_activation(environment, exposure=envd["exposure"], rest_times=L, abundance=abundance)
